@@ -123,6 +123,29 @@ func Bytes(n int) []byte {
 
 func String(n int) string { return string(Bytes(n)) }
 
+// IntIn returns an integer in [lo,hi] as ONE symbolic value (no fork): under the
+// engine it is a fresh 64-bit variable constrained to the range.
+func IntIn(lo, hi int) int {
+	if st.rnd != nil {
+		var v int
+		switch st.rnd.Intn(4) {
+		case 0:
+			v = lo
+		case 1:
+			v = hi
+		default:
+			v = lo + int(st.rnd.Int63n(int64(hi)-int64(lo)+1))
+		}
+		st.recorded = append(st.recorded, draw{Kind: "i64", W: 64, Val: strconv.FormatUint(uint64(int64(v)), 10)})
+		return v
+	}
+	v := int(next("i64", 64))
+	if v < lo || v > hi {
+		panic(assumeFailed{})
+	}
+	return v
+}
+
 // IntRange returns an integer in [lo,hi]; the engine forks once per value.
 func IntRange(lo, hi int) int {
 	if lo > hi {
